@@ -14,13 +14,17 @@ import (
 	"bytes"
 	"fmt"
 	"regexp"
+	"runtime/debug"
 	"sort"
 	"strings"
 	"time"
 
+	"github.com/elk-language/elk/bitfield"
+	"github.com/elk-language/elk/position/diagnostic"
 	"github.com/elk-language/elk/types"
 	"github.com/elk-language/elk/types/checker"
 	"github.com/elk-language/elk/value"
+	"github.com/elk-language/elk/vm"
 
 	"verifharness/elkrun"
 	"verifharness/engine"
@@ -389,37 +393,208 @@ func formsOf(op *operation, argk []*kind, repVals []string) (forms []form, iface
 	return forms, ifaces
 }
 
-// accept compiles prelude+defs; when rejected, bisects to find which definitions the checker accepts.
-func accept(pre string, forms []form, lo, hi int, r *engine.R) {
-	if lo >= hi {
+// compile type-checks and compiles a program like elkrun.Compile, and also returns the lines of the FAIL diagnostics.
+func compile(src string) (fn *vm.BytecodeFunction, failLines []int, diags string, panicSig string) {
+	defer func() {
+		if p := recover(); p != nil {
+			st := string(debug.Stack())
+			panicSig = engine.PanicSig(fmt.Sprint(p), st)
+			if panicSig == "" {
+				panicSig = fmt.Sprint(p)
+			}
+			fn = nil
+		}
+	}()
+	f, dl := checker.CheckSource("p.elk", src, nil, bitfield.BitField16{}, nil)
+	if dl.IsFailure() || f == nil {
+		for _, d := range dl {
+			if d.Severity == diagnostic.FAIL && d.Location != nil {
+				failLines = append(failLines, d.Location.StartPos.Line)
+			}
+		}
+		if dl != nil {
+			diags = dl.Error()
+		}
+		return nil, failLines, diags, ""
+	}
+	return f, nil, "", ""
+}
+
+// accept compiles prelude+defs of the forms idx; when the checker rejects the program the definitions its
+// diagnostics point into are dropped and the rest is retried (bisection when the diagnostics cannot be mapped).
+func accept(pre string, forms []*form, r *engine.R) {
+	if len(forms) == 0 {
 		return
 	}
 	var b strings.Builder
 	b.WriteString(pre)
-	for i := lo; i < hi; i++ {
-		b.WriteString(forms[i].def)
+	startLine := make([]int, len(forms)+1)
+	line := strings.Count(pre, "\n") + 1
+	for i, f := range forms {
+		startLine[i] = line
+		b.WriteString(f.def)
+		line += strings.Count(f.def, "\n")
 	}
-	fn, res := elkrun.Compile(b.String(), nil)
+	startLine[len(forms)] = line
+	fn, failLines, _, psig := compile(b.String())
 	r.Count("probe_compiles", 1)
 	if fn != nil {
 		var buf bytes.Buffer
 		fn.Disassemble(&buf)
 		secs := sections(buf.String())
-		for i := lo; i < hi; i++ {
-			forms[i].ok = true
-			forms[i].desc = describe(secs["Std::Kernel::"+forms[i].name], forms[i].variant == "literal")
+		for _, f := range forms {
+			f.ok = true
+			f.desc = describe(secs["Std::Kernel::"+f.name], f.variant == "literal")
 		}
 		return
 	}
-	if hi-lo == 1 {
-		if res.Panic != "" {
-			forms[lo].desc = "COMPILER-PANIC " + res.PanicSig
+	if len(forms) == 1 {
+		if psig != "" {
+			forms[0].desc = "COMPILER-PANIC " + psig
 		}
 		return
 	}
-	mid := (lo + hi) / 2
-	accept(pre, forms, lo, mid, r)
-	accept(pre, forms, mid, hi, r)
+	if psig == "" {
+		bad := map[int]bool{}
+		for _, ln := range failLines {
+			for i := range forms {
+				if ln >= startLine[i] && ln < startLine[i+1] {
+					bad[i] = true
+				}
+			}
+		}
+		if len(bad) > 0 && len(bad) < len(forms) {
+			var rest []*form
+			for i, f := range forms {
+				if !bad[i] {
+					rest = append(rest, f)
+				}
+			}
+			accept(pre, rest, r)
+			return
+		}
+	}
+	mid := len(forms) / 2
+	accept(pre, forms[:mid], r)
+	accept(pre, forms[mid:], r)
+}
+
+// ---------------------------------------------------------------------------------------------------------
+// running many independent items in one program; unlike elkrun.Batch a crashing item costs one re-run of the
+// items after it (the crashing item is known from the markers) instead of a bisection.
+
+const marker = "@@#"
+
+type itemRes struct {
+	out      string
+	rejected bool
+	err      string // class of an uncaught Elk error
+	panic    string // Go panic signature
+	ran      bool
+}
+
+func runItems(pre string, codes []string, r *engine.R) []itemRes {
+	res := make([]itemRes, len(codes))
+	idx := make([]int, len(codes))
+	for i := range idx {
+		idx[i] = i
+	}
+	runItemSet(pre, codes, idx, res, r)
+	return res
+}
+
+func runItemSet(pre string, codes []string, pending []int, res []itemRes, r *engine.R) {
+	for len(pending) > 0 {
+		var b strings.Builder
+		b.WriteString(pre)
+		b.WriteString("\n")
+		line := strings.Count(pre, "\n") + 2
+		startLine := make([]int, len(pending)+1)
+		for k, i := range pending {
+			startLine[k] = line
+			fmt.Fprintf(&b, "println(\"%s%d\")\n%s\n", marker, i, codes[i])
+			line += 2 + strings.Count(codes[i], "\n")
+		}
+		startLine[len(pending)] = line
+		fn, failLines, _, psig := compile(b.String())
+		r.Count("batch_compiles", 1)
+		if fn == nil {
+			if len(pending) == 1 {
+				res[pending[0]] = itemRes{rejected: psig == "", panic: psig, ran: true}
+				return
+			}
+			if psig == "" {
+				bad := map[int]bool{}
+				for _, ln := range failLines {
+					for k := range pending {
+						if ln >= startLine[k] && ln < startLine[k+1] {
+							bad[k] = true
+						}
+					}
+				}
+				if len(bad) > 0 && len(bad) < len(pending) {
+					var rest []int
+					for k, i := range pending {
+						if bad[k] {
+							res[i] = itemRes{rejected: true, ran: true}
+						} else {
+							rest = append(rest, i)
+						}
+					}
+					pending = rest
+					continue
+				}
+			}
+			mid := len(pending) / 2
+			runItemSet(pre, codes, pending[:mid], res, r)
+			runItemSet(pre, codes, pending[mid:], res, r)
+			return
+		}
+		xr := elkrun.Exec(fn, nil)
+		// split the output by markers
+		cur := -1
+		pos := map[int]int{}
+		for k, i := range pending {
+			pos[i] = k
+		}
+		last := -1
+		for _, l := range strings.SplitAfter(xr.Stdout, "\n") {
+			if strings.HasPrefix(l, marker) {
+				var n int
+				if _, err := fmt.Sscanf(strings.TrimSpace(l[len(marker):]), "%d", &n); err == nil {
+					if k, ok := pos[n]; ok {
+						cur = n
+						last = k
+						res[n].ran = true
+						continue
+					}
+				}
+			}
+			if cur >= 0 {
+				res[cur].out += l
+			}
+		}
+		if xr.Panic == "" && xr.Err == "" {
+			return
+		}
+		if last < 0 {
+			// failed before the first item: nothing can be attributed
+			for _, i := range pending {
+				res[i] = itemRes{panic: "failure before the first item: " + xr.PanicSig + xr.ErrClass, ran: true}
+			}
+			return
+		}
+		i := pending[last]
+		if xr.Panic != "" {
+			res[i].panic = xr.PanicSig
+			if res[i].panic == "" {
+				res[i].panic = xr.Panic
+			}
+		} else {
+			res[i].err = xr.ErrClass
+		}
+		pending = pending[last+1:]
+	}
 }
 
 var secRe = regexp.MustCompile(`(?m)^== Disassembly of (.*) at: .* ==$`)
@@ -500,7 +675,10 @@ func main() {
 			"(amplifying operations: magnitudes < 10^5 only); all forms must print the same inspect string or raise the same error class. " +
 			"An (operation, kinds) tuple is non-trivial only when its forms compiled to ≥2 different instruction sequences (taken from the disassembly); evaluations of trivial tuples are not counted as non-trivial",
 		Assume:      []string{"method bodies compiled one at a time (MethodCheckConcurrencyLimit=1)", "inspect output identifies the value (C19 checks inspect itself)"},
-		CaseTimeout: 180 * time.Second,
+		CaseTimeout: 300 * time.Second,
+		// nominal run times are for an idle 16-core machine; the deadlines leave room for a loaded one
+		QuickDeadline:    45 * time.Minute,
+		ThoroughDeadline: 3 * time.Hour,
 		Setup: func(c *engine.Ctx) {
 			elkrun.Init()
 			typeEnv = checker.NewGlobalEnvironment()
@@ -509,8 +687,33 @@ func main() {
 	})
 }
 
+var numericKinds = " Int Float BigFloat Float64 Float32 Int8 Int16 Int32 Int64 UInt8 UInt16 UInt32 UInt64 UInt "
+
+// quickKeeps decides which operand kind tuples the quick tier keeps (the thorough tier keeps all).
+func quickKeeps(op *operation, k *kind, t []*kind) bool {
+	if len(t) != 1 {
+		return true
+	}
+	a := t[0].name
+	switch {
+	case k.name == "Int" && a == "Int" && binaryOps[op.name] && op.params[0] != "any":
+		return false // Int×Int arithmetic is C06's territory: the quick tier keeps the mixed pairs only
+	case op.token == "&&" || op.token == "||" || op.token == "??":
+		// the right operand of a logical operator is never inspected by it
+		return strings.Contains(" Int Float String Bool Nil UInt8 ", " "+a+" ")
+	case op.params[0] == "any":
+		if a == k.name {
+			return true
+		}
+		if strings.Contains(numericKinds, " "+k.name+" ") {
+			return strings.Contains(numericKinds+"String Nil ", " "+a+" ")
+		}
+		return strings.Contains(" Int Float String Char Symbol Bool Nil List Tuple Range ", " "+a+" ")
+	}
+	return true
+}
+
 func run(c *engine.Ctx) {
-	// the Run function executes in every worker before Setup-dependent state is needed only inside cases, but
 	// the enumeration itself needs the type environment
 	if typeEnv == nil {
 		elkrun.Init()
@@ -536,141 +739,296 @@ func run(c *engine.Ctx) {
 					}
 				}
 			}
-			if k.name == "Int" && !c.Thorough && len(op.params) == 1 && op.params[0] != "any" {
-				// Int×Int is C06's territory: quick tier keeps the mixed pairs only
+			if !c.Thorough {
 				var t2 [][]*kind
 				for _, t := range tuples {
-					if t[0].name != "Int" || !binaryOps[op.name] {
+					if quickKeeps(&op, k, t) {
 						t2 = append(t2, t)
 					}
 				}
 				tuples = t2
 			}
-			for _, argk := range tuples {
-				argk := argk
-				var kn []string
-				for _, a := range argk {
-					kn = append(kn, a.name)
-				}
-				id := fmt.Sprintf("%s/%s/%s", k.name, strings.TrimPrefix(strings.TrimPrefix(op.label, "op="), "method="+k.name+"#"), strings.Join(kn, ","))
-				c.Case(id, func(r *engine.R) { runCase(c, r, &op, argk) })
-			}
+			id := fmt.Sprintf("%s/%s", k.name, strings.TrimPrefix(strings.TrimPrefix(op.label, "op="), "method="+k.name+"#"))
+			c.Case(id, func(r *engine.R) { runCase(c, r, &op, tuples) })
 		}
 	}
 }
 
-func runCase(c *engine.Ctx, r *engine.R, op *operation, argk []*kind) {
-	kindsStr := op.recv.name
-	for _, a := range argk {
-		kindsStr += "," + a.name
+// finding is one disagreement class inside a case, aggregated over the operand kinds that show it.
+type finding struct {
+	kinds  []string // argument kind tuples showing it
+	detail string
+	input  string
+	count  int
+}
+
+// trun is one (operation, operand kinds) tuple of a case.
+type trun struct {
+	argk       []*kind
+	kn         string // argument kinds, comma separated
+	kindsStr   string // receiver and argument kinds
+	tuples     [][]string
+	forms      []form
+	live       []*form
+	nontrivial bool
+	dead       map[int]string // live form index → panic outcome observed on the representative tuple
+	outs       [][]string     // [tuple][live form] outcome
+}
+
+var capRe = regexp.MustCompile(`\]:\d+`)
+
+func outcomeOf(ir itemRes) string {
+	switch {
+	case ir.panic != "":
+		return "GOPANIC " + panicKey("GOPANIC "+ir.panic)
+	case ir.rejected:
+		return "<rejected>"
+	case ir.err != "":
+		return "UNCAUGHT " + ir.err
+	case !ir.ran:
+		return "<not run>"
 	}
-	// value tuples
-	recvVals := op.recv.values(c.Thorough)
-	argVals := make([][]string, len(argk))
-	for i, a := range argk {
-		argVals[i] = a.values(c.Thorough)
-		if op.amplify {
-			argVals[i] = smallOnly(argVals[i])
+	// the spare capacity an ArrayList shows after `]` is not part of its value
+	return capRe.ReplaceAllString(strings.TrimSpace(ir.out), "]")
+}
+
+var negLit = regexp.MustCompile(`^\(-`)
+
+func runCase(c *engine.Ctx, r *engine.R, op *operation, argTuples [][]*kind) {
+	shift := op.token == "<<" || op.token == ">>" || op.token == "<<<" || op.token == ">>>"
+	var truns []*trun
+	var ifaces strings.Builder
+	for _, argk := range argTuples {
+		t := &trun{argk: argk, kindsStr: op.recv.name, dead: map[int]string{}}
+		var kn []string
+		for _, a := range argk {
+			kn = append(kn, a.name)
+			t.kindsStr += "," + a.name
 		}
-	}
-	if op.token == "**" {
-		recvVals = smallOnly(recvVals)
-	}
-	var tuples [][]string
-	var rec func(i int, cur []string)
-	rec = func(i int, cur []string) {
-		if i == len(argk) {
-			tuples = append(tuples, append([]string(nil), cur...))
-			return
-		}
-		for _, v := range argVals[i] {
-			rec(i+1, append(cur, v))
-		}
-	}
-	for _, a := range recvVals {
-		rec(0, []string{a})
-	}
-	if len(tuples) == 0 {
-		return
-	}
-	forms, ifaces := formsOf(op, argk, tuples[len(tuples)/2])
-	pre := prelude + ifaces
-	accept(pre, forms, 0, len(forms), r)
-	var live []form
-	descs := map[string]bool{}
-	for _, f := range forms {
-		if strings.HasPrefix(f.desc, "COMPILER-PANIC") {
-			r.Violation(fmt.Sprintf("%s kinds=%s variant=%s compiler go-panic", op.label, kindsStr, f.variant), f.def+"\n"+f.desc, f.def)
-			continue
-		}
-		if !f.ok {
-			r.Count("form_rejected:"+f.variant, 1)
-			continue
-		}
-		live = append(live, f)
-		descs[f.desc] = true
-		r.Count("form:"+f.variant, 1)
-	}
-	if len(live) < 2 {
-		r.Count("tuples_with_fewer_than_2_forms", 1)
-		r.Outcome("not-accepted")
-		return
-	}
-	nontrivial := len(descs) >= 2
-	if nontrivial {
-		r.Count("nontrivial_operation_kind_tuples", 1)
-	} else {
-		r.Count("trivial_operation_kind_tuples", 1)
-	}
-	var b strings.Builder
-	b.WriteString(pre)
-	for _, f := range live {
-		if f.variant != "literal" {
-			b.WriteString(f.def)
-		}
-	}
-	var items []elkrun.Item
-	type meta struct{ t, f int }
-	var metas []meta
-	for ti, t := range tuples {
-		for fi, f := range live {
-			var code string
-			if f.variant == "literal" {
-				code = body(exprOf(op, t[0], t[1:], false))
-			} else {
-				code = fmt.Sprintf("%s(%s)", f.name, strings.Join(t, ", "))
+		t.kn = strings.Join(kn, ",")
+		recvVals := op.recv.values(c.Thorough)
+		argVals := make([][]string, len(argk))
+		for i, a := range argk {
+			argVals[i] = a.values(c.Thorough)
+			if !c.Thorough && len(op.params) == 1 && op.params[0] == "any" && a.name != op.recv.name && len(argVals[i]) > 2 {
+				argVals[i] = argVals[i][:2] // quick tier: operands of an unrelated kind only need to be present
 			}
-			items = append(items, elkrun.Item{Code: code})
-			metas = append(metas, meta{ti, fi})
+			if op.amplify {
+				argVals[i] = smallOnly(argVals[i])
+			}
+			if shift && !c.Thorough && a.name != "Int" {
+				// negative fixed-width shift amounts crash every form alike (C07's territory): thorough tier only
+				var nn []string
+				for _, v := range argVals[i] {
+					if !negLit.MatchString(v) {
+						nn = append(nn, v)
+					}
+				}
+				argVals[i] = nn
+			}
+		}
+		if op.token == "**" {
+			recvVals = smallOnly(recvVals)
+		}
+		var rec func(i int, cur []string)
+		rec = func(i int, cur []string) {
+			if i == len(argk) {
+				t.tuples = append(t.tuples, append([]string(nil), cur...))
+				return
+			}
+			for _, v := range argVals[i] {
+				rec(i+1, append(cur, v))
+			}
+		}
+		for _, a := range recvVals {
+			rec(0, []string{a})
+		}
+		if len(t.tuples) == 0 {
+			continue
+		}
+		var ifc string
+		t.forms, ifc = formsOf(op, argk, t.tuples[len(t.tuples)/2])
+		ifaces.WriteString(ifc)
+		truns = append(truns, t)
+	}
+	if len(truns) == 0 {
+		return
+	}
+	pre := prelude + ifaces.String()
+	// 1. which forms does the checker accept, and what do they compile to
+	var all []*form
+	for _, t := range truns {
+		for i := range t.forms {
+			all = append(all, &t.forms[i])
 		}
 	}
-	res := elkrun.Batch(b.String(), items, nil)
-	outs := make([][]string, len(tuples))
-	for i := range outs {
-		outs[i] = make([]string, len(live))
-	}
-	for i, ir := range res {
-		m := metas[i]
-		o := strings.TrimSpace(ir.Out)
-		switch {
-		case ir.Panic != "":
-			o = "GOPANIC " + ir.Panic
-		case ir.Rejected:
-			o = "<rejected>"
-		case ir.Err != "":
-			o = "UNCAUGHT " + ir.ErrClass
+	accept(pre, all, r)
+	found := map[string]*finding{}
+	var keys []string
+	report := func(t *trun, key, detail, input string) {
+		f := found[key]
+		if f == nil {
+			f = &finding{detail: detail, input: input}
+			found[key] = f
+			keys = append(keys, key)
 		}
-		outs[m.t][m.f] = o
+		f.count++
+		if len(f.kinds) == 0 || f.kinds[len(f.kinds)-1] != t.kn {
+			f.kinds = append(f.kinds, t.kn)
+		}
 	}
-	for ti, t := range tuples {
+	var defs strings.Builder
+	var active []*trun
+	for _, t := range truns {
+		descs := map[string]bool{}
+		for i := range t.forms {
+			f := &t.forms[i]
+			if strings.HasPrefix(f.desc, "COMPILER-PANIC") {
+				report(t, "go-panic in the compiler "+strings.TrimPrefix(f.desc, "COMPILER-PANIC "), fmt.Sprintf("%s kinds=%s form %s: the compiler panics\n%s", op.label, t.kindsStr, f.variant, f.def), pre+f.def)
+				continue
+			}
+			if !f.ok {
+				r.Count("form_rejected:"+f.variant, 1)
+				continue
+			}
+			t.live = append(t.live, f)
+			descs[f.desc] = true
+			r.Count("form:"+f.variant, 1)
+		}
+		if len(t.live) < 2 {
+			r.Count("tuples_with_fewer_than_2_forms", 1)
+			r.Outcome("not-accepted")
+			continue
+		}
+		t.nontrivial = len(descs) >= 2
+		if t.nontrivial {
+			r.Count("nontrivial_operation_kind_tuples", 1)
+		} else {
+			r.Count("trivial_operation_kind_tuples", 1)
+		}
+		for _, f := range t.live {
+			if f.variant != "literal" {
+				defs.WriteString(f.def)
+			}
+		}
+		active = append(active, t)
+	}
+	if len(active) == 0 {
+		return
+	}
+	prog := pre + defs.String()
+	itemCode := func(t *trun, f *form, vals []string) string {
+		if f.variant == "literal" {
+			return body(exprOf(op, vals[0], vals[1:], false))
+		}
+		return fmt.Sprintf("%s(%s)", f.name, strings.Join(vals, ", "))
+	}
+	// 2. representative tuple of every form: forms that crash the interpreter there are not run on the other tuples
+	{
+		var codes []string
+		type m struct {
+			t  *trun
+			fi int
+		}
+		var ms []m
+		for _, t := range active {
+			rep := t.tuples[len(t.tuples)/2]
+			for fi, f := range t.live {
+				codes = append(codes, itemCode(t, f, rep))
+				ms = append(ms, m{t, fi})
+			}
+		}
+		for i, ir := range runItems(prog, codes, r) {
+			if ir.panic != "" {
+				ms[i].t.dead[ms[i].fi] = outcomeOf(ir)
+			}
+		}
+	}
+	// 3. all tuples; literal items (which can crash the compiler) separately from the calls, in chunks
+	type m struct {
+		t      *trun
+		ti, fi int
+	}
+	var litCodes, callCodes []string
+	var litM, callM []m
+	for _, t := range active {
+		t.outs = make([][]string, len(t.tuples))
+		rep := len(t.tuples) / 2
+		for ti, vals := range t.tuples {
+			t.outs[ti] = make([]string, len(t.live))
+			for fi, f := range t.live {
+				if d, ok := t.dead[fi]; ok {
+					if ti == rep {
+						t.outs[ti][fi] = d
+					} else {
+						t.outs[ti][fi] = "<not run>"
+					}
+					continue
+				}
+				if f.variant == "literal" {
+					litCodes = append(litCodes, itemCode(t, f, vals))
+					litM = append(litM, m{t, ti, fi})
+				} else {
+					callCodes = append(callCodes, itemCode(t, f, vals))
+					callM = append(callM, m{t, ti, fi})
+				}
+			}
+		}
+	}
+	const chunk = 1200
+	for lo := 0; lo < len(callCodes); lo += chunk {
+		hi := min(lo+chunk, len(callCodes))
+		for i, ir := range runItems(prog, callCodes[lo:hi], r) {
+			mm := callM[lo+i]
+			mm.t.outs[mm.ti][mm.fi] = outcomeOf(ir)
+		}
+	}
+	const litChunk = 400
+	for lo := 0; lo < len(litCodes); lo += litChunk {
+		hi := min(lo+litChunk, len(litCodes))
+		for i, ir := range runItems(prelude, litCodes[lo:hi], r) {
+			mm := litM[lo+i]
+			mm.t.outs[mm.ti][mm.fi] = outcomeOf(ir)
+		}
+	}
+	// 4. compare
+	for _, t := range active {
+		compareTuple(r, op, t, prog, func(key, detail, input string) { report(t, key, detail, input) })
+	}
+	sort.Strings(keys)
+	for _, key := range keys {
+		f := found[key]
+		if strings.HasPrefix(key, "go-panic") {
+			// a crash is identified by the method and the crash site, not by operand kinds or form
+			r.Violation(fmt.Sprintf("%s %s", opFamily(op), key), f.detail, f.input)
+			continue
+		}
+		ks := strings.Join(f.kinds, "|")
+		if len(f.kinds) == len(active) && len(active) > 1 {
+			ks = "*"
+		}
+		sig := fmt.Sprintf("%s kinds=%s", op.label, op.recv.name)
+		if ks != "" {
+			sig += "," + ks
+		}
+		r.Violation(sig+" "+key, fmt.Sprintf("(%d operand tuples over argument kinds %s)\n%s", f.count, strings.Join(f.kinds, "|"), f.detail), f.input)
+	}
+}
+
+func compareTuple(r *engine.R, op *operation, t *trun, prog string, report func(key, detail, input string)) {
+	live := t.live
+	for ti, vals := range t.tuples {
 		// group forms by outcome
 		groups := map[string][]int{}
 		var order []string
 		nforms := 0
 		for fi := range live {
-			o := outs[ti][fi]
+			o := t.outs[ti][fi]
 			if o == "<rejected>" {
 				r.Count("literal_item_rejected", 1)
+				continue
+			}
+			if o == "<not run>" || o == "" && false {
 				continue
 			}
 			nforms++
@@ -679,8 +1037,11 @@ func runCase(c *engine.Ctx, r *engine.R, op *operation, argk []*kind) {
 			}
 			groups[o] = append(groups[o], fi)
 		}
+		if nforms < 2 {
+			continue
+		}
 		r.Eval(nforms)
-		if nontrivial {
+		if t.nontrivial {
 			r.NT(1)
 		}
 		for _, o := range order {
@@ -694,8 +1055,9 @@ func runCase(c *engine.Ctx, r *engine.R, op *operation, argk []*kind) {
 			}
 		}
 		if len(order) <= 1 {
-			if len(order) == 1 && strings.HasPrefix(order[0], "GOPANIC") {
-				r.Violation(fmt.Sprintf("%s go-panic %s", opFamily(op), panicKey(order[0])), fmt.Sprintf("%s kinds=%s operands %v, every form: %s", op.label, kindsStr, t, order[0]), pre+live[0].def+items[ti*len(live)].Code)
+			if strings.HasPrefix(order[0], "GOPANIC") {
+				// every form crashes alike: the forms agree, so this is not a violation of C08 (it is one of C01)
+				r.Count("all_forms_go_panic: "+opFamily(op)+" "+strings.TrimPrefix(order[0], "GOPANIC "), 1)
 			}
 			continue
 		}
@@ -725,32 +1087,66 @@ func runCase(c *engine.Ctx, r *engine.R, op *operation, argk []*kind) {
 		}
 		var table strings.Builder
 		for fi, f := range live {
-			fmt.Fprintf(&table, "  %-11s %-60s → %s\n", f.variant, "["+f.desc+"]", outs[ti][fi])
+			fmt.Fprintf(&table, "  %-11s %-60s → %s\n", f.variant, "["+f.desc+"]", t.outs[ti][fi])
 		}
+		var src strings.Builder
+		src.WriteString(prelude)
+		for _, f := range live {
+			if f.variant != "literal" {
+				src.WriteString(f.def)
+			}
+		}
+		if strings.Contains(prog, "interface ") {
+			// the interface of this tuple's dynamic form
+			for _, f := range live {
+				if f.variant == "dynamic" {
+					if i := strings.Index(f.def, "(p0: IOp"); i >= 0 {
+						name := f.def[i+5:]
+						name = name[:strings.IndexAny(name, ",)")]
+						if k := strings.Index(prog, "interface "+name+"\n"); k >= 0 {
+							e := strings.Index(prog[k:], "\nend\n")
+							src.WriteString(prog[k : k+e+5])
+						}
+					}
+				}
+			}
+		}
+		for _, f := range live {
+			if f.variant == "literal" {
+				src.WriteString(body(exprOf(op, vals[0], vals[1:], false)))
+			} else {
+				src.WriteString(fmt.Sprintf("%s(%s)\n", f.name, strings.Join(vals, ", ")))
+			}
+		}
+		// the deviating forms, grouped by what they print
+		var dev []string
 		for _, o := range order {
 			if o == ref {
 				continue
 			}
-			for _, fi := range groups[o] {
-				f := live[fi]
-				src := f.def + fmt.Sprintf("%s(%s)", f.name, strings.Join(t, ", "))
-				if f.variant == "literal" {
-					src = body(exprOf(op, t[0], t[1:], false))
-				}
-				sig := fmt.Sprintf("%s kinds=%s variant=%s", op.label, kindsStr, f.variant)
-				if strings.HasPrefix(o, "GOPANIC") {
-					// a crash is identified by the operation and the crash site, not by operand kinds or form
-					sig = fmt.Sprintf("%s go-panic %s", opFamily(op), panicKey(o))
-				}
-				r.Violation(sig,
-					fmt.Sprintf("%s on operands %s: form %q gives %s, the other forms give %s\n%s", op.label, strings.Join(t, ", "), f.variant, o, ref, table.String()),
-					pre+src)
+			if strings.HasPrefix(o, "GOPANIC") {
+				report("go-panic "+strings.TrimPrefix(o, "GOPANIC "), fmt.Sprintf("%s on operands %s (kinds %s): the forms disagree, some crash the interpreter\n%s", op.label, strings.Join(vals, ", "), t.kindsStr, table.String()), src.String())
+				continue
 			}
+			var vs []string
+			for _, fi := range groups[o] {
+				vs = append(vs, live[fi].variant)
+			}
+			dev = append(dev, strings.Join(vs, "+"))
+		}
+		if len(dev) > 0 {
+			report("variant="+strings.Join(dev, "/"), fmt.Sprintf("%s on operands %s (kinds %s): the forms disagree\n%s", op.label, strings.Join(vals, ", "), t.kindsStr, table.String()), src.String())
 		}
 	}
-	if len(items) > 0 {
-		r.Sample(fmt.Sprintf("%s kinds=%s: %d forms %v over %d operand tuples", op.label, kindsStr, len(live), descList(live), len(tuples)))
+	r.Sample(fmt.Sprintf("%s kinds=%s: %d forms %v over %d operand tuples", op.label, t.kindsStr, len(live), descListP(live), len(t.tuples)))
+}
+
+func descListP(fs []*form) []string {
+	var r []string
+	for _, f := range fs {
+		r = append(r, f.variant+"="+f.desc)
 	}
+	return r
 }
 
 // opFamily names the method behind an operation (!= and !~ are == and =~ negated).
@@ -764,12 +1160,20 @@ func opFamily(op *operation) string {
 	return "op=" + op.name
 }
 
-var ofClassRe = regexp.MustCompile(` of class: .*? @ `)
+var ofClassRe = regexp.MustCompile(` of class: [^@]*`)
 
-// panicKey normalises "GOPANIC <msg> @ frame @ frame": the receiver class and value are dropped.
+var funcNRe = regexp.MustCompile(`vm\.init\w+\.func\d+`)
+
+// panicKey normalises "GOPANIC <msg> @ frame @ frame": the receiver class and value are dropped and only the
+// innermost frame is kept (the second one is the per-class native wrapper).
 func panicKey(o string) string {
 	o = strings.TrimPrefix(o, "GOPANIC ")
-	return ofClassRe.ReplaceAllString(o, " @ ")
+	o = ofClassRe.ReplaceAllString(o, " ")
+	parts := strings.Split(o, " @ ")
+	if len(parts) > 2 {
+		parts = parts[:2]
+	}
+	return funcNRe.ReplaceAllString(strings.TrimSpace(strings.Join(parts, " @ ")), "native")
 }
 
 func descList(fs []form) []string {
